@@ -1,6 +1,7 @@
 //! Conformance harness binding the TLA+ specifications under /verif/spec to the
 //! real `assets_manager` crate (path dependency on /repo).
 pub mod assets;
+pub mod bytesfid;
 pub mod front;
 pub mod mem;
 pub mod nodes;
